@@ -339,12 +339,58 @@ func hasRecv(e ast.Expr) bool { return exprsHaveRecv(e) }
 func (r *rewriter) wrapBlocking(st ast.Stmt, kind string) []ast.Stmt {
 	r.needSimrt = true
 	r.note(st.Pos(), "blocking "+kind)
+	// Operands that contain calls are evaluated first, into temporaries: a channel obtained from a method that
+	// takes a lock (`<-t.Idle()`) must not be computed after the task has been marked as blocked.
+	pre := r.hoistOperands(st)
 	tok := r.fresh("tok")
-	return []ast.Stmt{
+	return append(pre,
 		&ast.AssignStmt{Lhs: []ast.Expr{ident(tok)}, Tok: token.DEFINE, Rhs: []ast.Expr{simrtCall("BeforeBlock")}},
 		st,
 		&ast.ExprStmt{X: simrtCall("AfterBlock", ident(tok))},
+	)
+}
+
+// hoistOperands replaces, inside one communication statement, channel operands (and sent values) that contain
+// calls by temporaries, and returns the assignments that compute them.
+func (r *rewriter) hoistOperands(st ast.Node) []ast.Stmt {
+	var pre []ast.Stmt
+	hoist := func(e ast.Expr) ast.Expr {
+		if !containsCall(e) {
+			return e
+		}
+		name := r.fresh("op")
+		pre = append(pre, &ast.AssignStmt{Lhs: []ast.Expr{ident(name)}, Tok: token.DEFINE, Rhs: []ast.Expr{e}})
+		return ident(name)
 	}
+	ast.Inspect(st, func(m ast.Node) bool {
+		switch n := m.(type) {
+		case *ast.FuncLit:
+			return false
+		case *ast.UnaryExpr:
+			if n.Op == token.ARROW {
+				n.X = hoist(n.X)
+			}
+		case *ast.SendStmt:
+			n.Chan = hoist(n.Chan)
+			n.Value = hoist(n.Value)
+		}
+		return true
+	})
+	return pre
+}
+
+func containsCall(e ast.Expr) bool {
+	found := false
+	ast.Inspect(e, func(m ast.Node) bool {
+		switch m.(type) {
+		case *ast.FuncLit:
+			return false
+		case *ast.CallExpr:
+			found = true
+		}
+		return !found
+	})
+	return found
 }
 
 func (r *rewriter) rewriteGo(g *ast.GoStmt) ast.Stmt {
@@ -420,12 +466,16 @@ func (r *rewriter) rewriteSelect(s *ast.SelectStmt) []ast.Stmt {
 	}
 	r.note(s.Pos(), "select (annotated, Go's own choice among ready cases)")
 	tok := r.fresh("tok")
+	var pre []ast.Stmt
 	for _, c := range s.Body.List {
 		cc := c.(*ast.CommClause)
+		if cc.Comm != nil {
+			pre = append(pre, r.hoistOperands(cc.Comm)...) // Go evaluates all operands on entering the select, in source order
+		}
 		cc.Body = append([]ast.Stmt{&ast.ExprStmt{X: simrtCall("AfterBlock", ident(tok))}}, cc.Body...)
 	}
-	return []ast.Stmt{
+	return append(pre,
 		&ast.AssignStmt{Lhs: []ast.Expr{ident(tok)}, Tok: token.DEFINE, Rhs: []ast.Expr{simrtCall("BeforeBlock")}},
 		s,
-	}
+	)
 }
